@@ -1709,6 +1709,8 @@ class Walker:
             if d == 0:
                 return a
             return self.binop("+", a, ("const", d)) if d > 0 else ("bin", "-", a, ("const", -d))
+        if op == "+" and ("const", 0) in (l, r) and l != r:
+            return r if l == ("const", 0) else l  # n + 0 (a default offset) is n
         if op in ("+", "*"):
             l, r = sorted([l, r], key=tkey)
         return ("bin", op, l, r)
@@ -2059,6 +2061,14 @@ class Walker:
                 fi = self.repo.method(rcls, meth)
                 if fi is not None and self.inline(fi) and len(self.fnstack) <= self.max_depth and fi not in self.fnstack:
                     return self.inline_call(fi, recv, args, kwargs, e)
+            elif recv[0] == "attr" and recv[2] == "subgraph":
+                # a method of the training graph that the documented API does not have (a helper added next to
+                # create_arcs & co.): when its name is unique among the graph classes, the call is its body
+                cands = [ci.methods[meth] for ci in (self.repo.find_class(c) for c in ("Subgraph", "KNNSubgraph")
+                                                     if self.repo.has_class(c)) if meth in ci.methods]
+                if len(cands) == 1 and api_signature(cands[0]) is None and self.inline(cands[0]) \
+                        and len(self.fnstack) <= self.max_depth and cands[0] not in self.fnstack:
+                    return self.inline_call(cands[0], recv, args, kwargs, e)
             t = ("call", fn, args, kwargs)
             self.emit("call", e, target=fn, value=t, name=meth, args=args, kwargs=kwargs)
             if recv[0] == "alloc" and recv[1] == "list" and recv[-1] in self.__dict__.get("lists", {}) \
@@ -2315,6 +2325,49 @@ def settle_removed_costs(w) -> int:
             scan(a)
             scan(b)
     mapping = {}
+    # the same for a copy of a field of the removed node (`label_p = nodes[p].predicted_label` hoisted above the scan):
+    # exact when that field is stored, in the iteration, only on other nodes (`nodes[q].F = ...` under q != p)
+    ncands = set()
+
+    def nscan(t):
+        for x in subterms(t):
+            if x[0] == "old" and x[1][0] == "attr" and x[1][1][0] == "idx" and x[1][1][1][0] == "attr" \
+                    and x[1][1][1][2] == "nodes" and x[1][1][2][0] == "hremove":
+                ncands.add(x)
+    for e in w.events:
+        for t in (e.target, e.value) + tuple(e.args or ()) + tuple(g for g, _ in e.guards):
+            if t is not None:
+                nscan(t)
+    for li in w.loops.values():
+        for a, b in li.carried.values():
+            nscan(a)
+            nscan(b)
+    ws = write_summaries(w.repo) if ncands else {}
+    for O in ncands:
+        node, F = O[1][1], O[1][2]
+        nodes_t, x = node[1], node[2]
+        lid = x[2]
+        ok = True
+        for e in w.events:
+            if lid not in e.loops:
+                continue
+            fs = facts(e.guards)
+            differs = lambda q: mk_cmp("!=", x, q) in fs
+            if e.kind == "store" and e.target[0] == "attr" and e.target[2] in (F, "_" + F):
+                r = e.target[1]
+                while r[0] == "old":
+                    r = r[1]
+                if not (r[0] == "idx" and r[1] == nodes_t and differs(r[2])):
+                    ok = False
+            elif e.kind == "store" and e.target in (nodes_t, ("attr", nodes_t[1], "nodes")) :
+                ok = False
+            elif e.kind == "call" and e.name not in ("<inline>", "update", "insert", "remove", "append", "is_empty") \
+                    and e.target is not None and e.target[0] == "attr" and (F in ws.get(e.name, set()) or "nodes" in ws.get(e.name, set())):
+                ok = False
+            if not ok:
+                break
+        if ok:
+            mapping[O] = O[1]
     for O in cands:
         H, x = O[1][1][1], O[1][2]
         lid = x[2]
@@ -2324,7 +2377,8 @@ def settle_removed_costs(w) -> int:
                 if e.kind == "store" and e.target == ("attr", H, "cost"):
                     ok = False
                 continue
-            differs = lambda q: (mk_cmp("==", x, q), False) in e.guards or (mk_cmp("!=", x, q), True) in e.guards
+            fs = facts(e.guards)
+            differs = lambda q: mk_cmp("!=", x, q) in fs
             if e.kind == "store":
                 if e.target == ("attr", H, "cost"):
                     ok = False
